@@ -220,3 +220,145 @@ Lemma hcl_nil_check_refuted :
     hp_errors (hcl text) = true /\
     read_description unit false FHcl hcl (fun _ => None) (fun _ => VOk [1]) text = VOk [1].
 Proof. exists (fun _ => {| hp_errors := true; hp_file := Some tt |}), []. split; reflexivity. Qed.
+
+(* ---------- round 8: a pass that ends at an entry the scanner refuses ---------- *)
+
+Section GrpcRefusedProofs.
+  Variable unmarshal : bytes -> option (bytes * bytes).
+  Variable cont : bool.
+
+  (* the pass loop on a file with a refused entry IS the specification: no dependence on Passes, on the pass
+     counter or on what a pass starts with *)
+  Lemma grpc_refused_run limit passes k : forall all ammo pass left,
+    grpc_run_opts unmarshal cont limit passes k all STooLong ammo pass left =
+    firstn k (refused_spec unmarshal cont limit ammo left).
+  Proof.
+    induction k as [|k IH]; intros all ammo pass left; [reflexivity|].
+    destruct left as [|l r]; [cbn [grpc_run_opts refused_spec firstn]; rewrite firstn_nil; reflexivity|].
+    cbn [grpc_run_opts refused_spec].
+    destruct (limit_reached limit ammo); [cbn [firstn]; rewrite firstn_nil; reflexivity|].
+    destruct (unmarshal (drop_cr l)) as [[t c]|].
+    - cbn [firstn]. f_equal. apply IH.
+    - destruct cont; [|cbn [firstn]; rewrite firstn_nil; reflexivity]. cbn [firstn]. f_equal. apply IH.
+  Qed.
+
+  Lemma grpc_provider_refused limit passes max l p m a k file :
+    opt_accept OIntMin0 limit = Some l -> opt_accept OIntMin0 passes = Some p -> opt_accept OInt max = Some m ->
+    scan_lines_opt m file = (a, STooLong) ->
+    grpc_provider unmarshal cont limit passes max k file = Some (firstn k (refused_spec unmarshal cont l 0 a)).
+  Proof.
+    intros Hl Hp Hm Hs. unfold grpc_provider. rewrite Hl, Hp, Hm, scanner_setup_code, Hs.
+    f_equal. apply grpc_refused_run.
+  Qed.
+
+  (* the driver's expectation is the model's answer whenever it has one *)
+  Lemma grpc_refused_expected_sound limit passes max k file rs :
+    grpc_refused_expected unmarshal cont limit passes max k file = Some rs ->
+    grpc_provider unmarshal cont limit passes max k file = Some rs.
+  Proof.
+    unfold grpc_refused_expected.
+    destruct (opt_accept OIntMin0 limit) as [l|] eqn:El; [|discriminate].
+    destruct (opt_accept OIntMin0 passes) as [p|] eqn:Ep; [|discriminate].
+    destruct (opt_accept OInt max) as [m|] eqn:Em; [|discriminate].
+    destruct (scan_lines_opt m file) as [a e] eqn:Es. destruct e; [discriminate|].
+    intros H. injection H as <-. eapply grpc_provider_refused; eassumption.
+  Qed.
+
+  (* what the consumer sees of one line *)
+  Definition deliver_of (l : bytes) : pres :=
+    match unmarshal (drop_cr l) with Some (t, c) => PDeliver t c | None => PInvalid end.
+
+  Definition decodable (l : bytes) : Prop := unmarshal (drop_cr l) <> None.
+
+  (* when the limit does not end the run in front of the refused entry: every accepted line is delivered, in
+     order, and then the run FAILS — never a successful end *)
+  Lemma refused_spec_reaches_error limit : forall left ammo,
+    0 <= ammo ->
+    limit = 0 \/ ammo + Z.of_nat (length left) <= limit ->
+    (cont = true \/ Forall decodable left) ->
+    refused_spec unmarshal cont limit ammo left = map deliver_of left ++ [PErr].
+  Proof.
+    induction left as [|l r IH]; intros ammo H0 Hlim Hdec; [reflexivity|].
+    cbn [refused_spec map app].
+    assert (Hr : limit_reached limit ammo = false).
+    { unfold limit_reached. destruct Hlim as [->|Hlim]; [reflexivity|].
+      cbn [length] in Hlim. apply andb_false_iff. right. apply Z.leb_gt. lia. }
+    rewrite Hr. unfold deliver_of at 1.
+    assert (Hnext : refused_spec unmarshal cont limit (ammo + 1) r = map deliver_of r ++ [PErr]).
+    { apply IH; [lia| |].
+      - destruct Hlim as [->|Hlim]; [left; reflexivity|right]. cbn [length] in Hlim. lia.
+      - destruct Hdec as [Hc|Hd]; [left; exact Hc|right]. inversion Hd; assumption. }
+    destruct (unmarshal (drop_cr l)) as [[t c]|] eqn:Eu.
+    - rewrite Hnext. reflexivity.
+    - destruct Hdec as [->|Hd]; [rewrite Hnext; reflexivity|].
+      inversion Hd as [|? ? Hl _]. unfold decodable in Hl. congruence.
+  Qed.
+
+  (* a successful end needs the limit: it is set and lies within the accepted lines *)
+  Lemma refused_spec_done_needs_limit limit : forall left ammo,
+    0 <= ammo -> In PDone (refused_spec unmarshal cont limit ammo left) ->
+    limit <> 0 /\ limit < ammo + Z.of_nat (length left).
+  Proof.
+    induction left as [|l r IH]; intros ammo H0 Hin.
+    - cbn in Hin. destruct Hin as [Hin|[]]. discriminate.
+    - cbn [refused_spec] in Hin. cbn [length]. rewrite Nat2Z.inj_succ.
+      destruct (limit_reached limit ammo) eqn:Er.
+      + unfold limit_reached in Er. apply andb_prop in Er. destruct Er as [A B].
+        apply negb_true_iff in A. apply Z.eqb_neq in A. apply Z.leb_le in B. split; [exact A|lia].
+      + assert (Hn : In PDone (refused_spec unmarshal cont limit (ammo + 1) r) ->
+                     limit <> 0 /\ limit < ammo + Z.succ (Z.of_nat (length r))).
+        { intros Hi. destruct (IH (ammo + 1)) as [A B]; [lia|exact Hi|]. split; [exact A|lia]. }
+        destruct (unmarshal (drop_cr l)) as [[t c]|].
+        * destruct Hin as [Hin|Hin]; [discriminate|]. apply Hn, Hin.
+        * destruct cont.
+          -- destruct Hin as [Hin|Hin]; [discriminate|]. apply Hn, Hin.
+          -- destruct Hin as [Hin|[]]. discriminate.
+  Qed.
+
+  (* the order of the checks: with scanner.Err() first the parametrised loop is the model ... *)
+  Lemma grpc_run_ord_code limit passes k : forall all e ammo pass left,
+    grpc_run_ord unmarshal cont limit true passes k all e ammo pass left =
+    grpc_run_opts unmarshal cont limit passes k all e ammo pass left.
+  Proof.
+    induction k as [|k IH]; intros all e ammo pass left; [reflexivity|].
+    cbn [grpc_run_ord grpc_run_opts].
+    destruct left as [|l r].
+    - destruct e; [|reflexivity].
+      destruct (ammo =? 0); [reflexivity|]. destruct (limit_reached limit ammo); [reflexivity|].
+      destruct (negb (passes =? 0) && (passes <=? pass)); [reflexivity|].
+      destruct all as [|l r]; [reflexivity|].
+      destruct (unmarshal (drop_cr l)) as [[t c]|]; [rewrite IH; reflexivity|].
+      destruct cont; [rewrite IH; reflexivity|reflexivity].
+    - destruct (limit_reached limit ammo); [reflexivity|].
+      destruct (unmarshal (drop_cr l)) as [[t c]|]; [rewrite IH; reflexivity|].
+      destruct cont; [rewrite IH; reflexivity|reflexivity].
+  Qed.
+
+  (* ... and on a file the scanner reads to its end the order does not matter at all (which is why a test
+     suite of well-formed files cannot tell the two orders apart) *)
+  Lemma grpc_run_ord_wellformed limit passes b k : forall all ammo pass left,
+    grpc_run_ord unmarshal cont limit b passes k all SEof ammo pass left =
+    grpc_run_opts unmarshal cont limit passes k all SEof ammo pass left.
+  Proof.
+    induction k as [|k IH]; intros all ammo pass left; [reflexivity|].
+    cbn [grpc_run_ord grpc_run_opts].
+    destruct left as [|l r].
+    - destruct b;
+        (destruct (ammo =? 0); [reflexivity|]; destruct (limit_reached limit ammo); [reflexivity|];
+         destruct (negb (passes =? 0) && (passes <=? pass)); [reflexivity|];
+         destruct all as [|l r]; [reflexivity|];
+         destruct (unmarshal (drop_cr l)) as [[t c]|]; [rewrite IH; reflexivity|];
+         destruct cont; [rewrite IH; reflexivity|reflexivity]).
+    - destruct (limit_reached limit ammo); [reflexivity|].
+      destruct (unmarshal (drop_cr l)) as [[t c]|]; [rewrite IH; reflexivity|].
+      destruct cont; [rewrite IH; reflexivity|reflexivity].
+  Qed.
+End GrpcRefusedProofs.
+
+(* the bounds looked at before the scanner: the last pass ends "successfully" at the refused entry, the
+   entries behind it are never delivered and nothing is reported *)
+Lemma grpc_err_after_bounds_refuted :
+  let u := fun l : bytes => Some (l, @nil N) in
+  grpc_run_ord u false 0 false 1 4 [[97%N]] STooLong 0 1 [[97%N]] = [PDeliver [97%N] []; PDone] /\
+  grpc_run_ord u false 0 true 1 4 [[97%N]] STooLong 0 1 [[97%N]] = [PDeliver [97%N] []; PErr].
+Proof. split; reflexivity. Qed.
